@@ -42,6 +42,13 @@ def cells(tier: str) -> dict:
         add(f"cycle[{kind}]", lambda kind=kind: cyc(kind), lambda s: ranges_e(s, 0, 3 * H))
     # pinned start from two days before the project start to two days past its end (project is 14 days long)
     add("pinned[s0 in -2d..16d]", pinned, lambda s: {"e0": (0, 3 * H), "e1": (0, 3 * H), "s0": (-2 * 1440, 16 * 1440)})  # minutes
+    # degenerate but grammatical resources: efficiency 0 on the primary / on the alternative of an allocation, a group as only allocation
+    def alt_eff0(which):
+        r1, r2 = Res("r1", eff=0.0 if which == "primary" else 1.0), Res("r2", eff=0.0 if which == "alternative" else 1.0)
+        return Spec([Task("comp", effort=P("e0"), alloc=["r1"], prio=900), Task("flex", effort=P("e1"), alloc=["r1"], alt=["r2"], prio=100)], [r1, r2], length="2w")
+    add("alt[eff0,primary]", lambda: alt_eff0("primary"), lambda s: ranges_e(s, 0, 3 * H))
+    add("alt[eff0,alternative]", lambda: alt_eff0("alternative"), lambda s: ranges_e(s, 0, 3 * H))
+    add("Sgroup", sxlib.Sgroup, lambda s: ranges_e(s, 0, 3 * H))
     add("S6[dres,0..huge]", lambda: S6("dres", limit="2h"), lambda s: ranges_e(s, 0, 60 * H))
     add("S6[wres,0..huge]", lambda: S6("wres", limit="5h"), lambda s: ranges_e(s, 0, 60 * H))
     return out
